@@ -389,8 +389,10 @@ DestroyOp(fa) ==
   IN /\ m' = r.s /\ seenn' = seenn /\ seenh' = seenh
      /\ a' = Destroy(N0("destroy", "OK", fa))
      /\ hist' = Append(hist, [op |-> "destroy", fail_at |-> fa])
+\* INIT. After DESTROY it starts the next session; a second INIT WITHOUT a DESTROY re-imports the root (its InodeData is
+\* replaced) and leaves every other inode, reference and open handle as it is -- next_handle is a monotone counter that is
+\* never reset, so handle numbers stay distinct
 InitOp(fa) ==
-  /\ ~a.up
   /\ LET r == Import(m, B(fa)) IN
      Step(r.s, Inited(N0("init", r.st, fa), r.st), [op |-> "init", fail_at |-> fa], 0, 0)
 
@@ -426,6 +428,7 @@ Next ==
   /\ IF ~a.up THEN \E fa \in Fails : InitOp(fa)
      ELSE IF MODE = "refs" THEN
           \/ \E n \in Names : Lookup(n, -1) \/ Mknod(n, -1) \/ Unlink(n)
+          \/ InitOp(-1)
           \/ \E n \in Names, tr \in (IF m.cfg.seal THEN BOOLEAN ELSE {FALSE}) : Create(n, tr, -1)
           \/ \E n \in Names, k \in Nums : Link(k, n, -1)
           \/ \E n1, n2 \in Names : Rename(n1, n2)
@@ -439,13 +442,14 @@ Next ==
           \/ \E k \in Nums, h \in Hs : ReleaseOp(k, h, FALSE) \/ ReleaseOp(k, h, TRUE) \/ \E fa \in Fails : ReadOp(k, h, fa)
           \/ \E h \in Hs, fa \in Fails : ReaddirRoot(h, 1, TRUE, fa)
           \/ \E k \in Nums : ForgetOp(k, 1) \/ ForgetOp(k, 3)
-          \/ \E fa \in Fails : DestroyOp(fa)
+          \/ \E fa \in Fails : DestroyOp(fa) \/ InitOp(fa)
      ELSE IF m.cfg.via = "pseudo" THEN \E size \in 1..2, j \in 0..4 : PseudoOp(size, j)
      ELSE \E h \in 1..2, size \in 1..3, j \in 0..4, plus \in {FALSE} : DirOp(h, size, j, plus)
 
 Spec == MCInit /\ [][Next]_vars
 \* hist and the ORDER of first appearance are scenario bookkeeping; which numbers / handles the client knows is state
-View == <<m, a, Range(seenn), Range(seenh)>>
+\* ... and the history length bounds the exploration, so it is state too
+View == <<m, a, Range(seenn), Range(seenh), Len(hist)>>
 
 (* ------------------------------------------ checking ----------------------------------------- *)
 \* signatures the BUG switches stand for (the trace check lists the same defects in known_findings.json)
